@@ -17,6 +17,7 @@ From Verif Require Import Base Cal Tables Period Engine GuardsTypes Guards Guard
 From Verif Require Import GuardsPeriod GuardsPeriodSem GuardsInput GuardsInputEngineSem.
 From Verif Require Import GuardsProofs GuardsPeriodProofs GuardsInputEngineProofs.
 From Verif Require GuardsInputProofs.
+From Verif Require Import GuardsPlan EnginePlan GuardsPlanProofs.
 Import ListNotations.
 Open Scope Z_scope.
 
@@ -167,6 +168,27 @@ Theorem source_engine_set_input : forall sy pp s v p a,
   set_input sy pp s v p a = src_engine_set_input sy pp s v p a.
 Proof. exact engine_set_input_is_source. Qed.
 Print Assumptions source_engine_set_input.
+
+(** ** The order of the steps of the evaluator (coq/gen/GuardsPlan.v, from
+       Simulation.calculate, _calculate, _check_for_cycle, purge_cache_of_invalid_values;
+       reference plans and their reading on [Engine.calc] / [calc_body] / [purge] in
+       coq/model/EnginePlan.v) *)
+
+Theorem source_calculate_plan : gen_calculate_plan = calculate_plan.
+Proof. exact gen_calculate_plan_is_model. Qed.
+Print Assumptions source_calculate_plan.
+
+Theorem source__calculate_plan : gen__calculate_plan = _calculate_plan.
+Proof. exact gen__calculate_plan_is_model. Qed.
+Print Assumptions source__calculate_plan.
+
+Theorem source_check_for_cycle_plan : gen_check_for_cycle_plan = check_for_cycle_plan.
+Proof. exact gen_check_for_cycle_plan_is_model. Qed.
+Print Assumptions source_check_for_cycle_plan.
+
+Theorem source_purge_plan : gen_purge_plan = purge_plan.
+Proof. exact gen_purge_plan_is_model. Qed.
+Print Assumptions source_purge_plan.
 
 (** ** Non-vacuity: the regenerated guards do raise and do accept *)
 
